@@ -802,11 +802,25 @@ def _impl_expand_raw(new_key, n, sub, ids):
     except Exception as exc:      # pylint: disable=broad-except
         return ('err', ERRMAP.get(type(exc).__name__,
                                   'EOther_' + type(exc).__name__))
-    if isinstance(tree, int):
-        return ('ok', ('leaf', int(tree)), conv.new_cell_key)
-    key, oper, *args = tree
-    return ('ok', ('node', int(key), oper, [int(a) for a in args]),
-            conv.new_cell_key)
+    # the fresh-cell counter after the call is observed through the public
+    # behaviour (the key given to the NEXT expanded collection), not by reading
+    # an attribute of the converter object
+    try:
+        probe = conv.pot_expand_surfs(Surface(-7), {7: [7, 8]})
+        counter = int(list(probe)[0]) - 1
+    except Exception:      # pylint: disable=broad-except
+        counter = None
+    try:
+        leaf_id = int(tree)
+    except (TypeError, ValueError):
+        leaf_id = None
+    if leaf_id is not None:
+        return ('ok', ('leaf', leaf_id),
+                counter if counter is not None else new_key)
+    key, oper, *args = list(tree)
+    if counter is None:
+        counter = int(key)
+    return ('ok', ('node', int(key), str(oper), [int(a) for a in args]), counter)
 
 
 def coq_expand_out(out):
